@@ -199,6 +199,7 @@ WORKLOADS = [
     Workload("transform", w_transform, 1600, 160000),
     Workload("errors", w_errors, 12, 120),
     Workload("devices_use", w_devices_use, 20, 400),
+    Workload("repo_tests", lambda ctx, rng, i: core.run_repo_tests(ctx), 1, 1, budget=1800, tiers=("thorough",)),
 ]
 
 
